@@ -214,19 +214,41 @@ def order_of(prec: dict[str, int]) -> list[set]:
     return [levels[k] for k in sorted(levels)]
 
 
+def pratt_calculator(check: Check, repo: Repo) -> bool:
+    """CALC-PRATT: the Pratt calculator as declared - its class body evaluated, aliases and all - run through the
+    library's loop on every well-formed stream of up to three of its operators (sa/prattsem.py)."""
+    from ..prattsem import check_calculator
+
+    n, bad = check_calculator(repo, PRATT_EX, "CalculatorParser", "C17 CALC-PRATT")
+    check.count("pratt_calculator_streams", n)
+    check.oblige("CALC-PRATT", PRATT_EX, f"on all {n} model streams the Pratt calculator builds the tree its intended order and associativity denote", True, sample=True)
+    cats: dict[str, list[str]] = {}
+    for cat, msg in bad:
+        cats.setdefault(cat, []).append(msg)
+    for cat, msgs in sorted(cats.items()):
+        check.oblige("CALC-PRATT", PRATT_EX, cat, False, sample=True, finding=Finding("CALC-PRATT", PRATT_EX, cat, f"{cat}: e.g. {msgs[0]} ({len(msgs)} of {n} model streams); the three calculators then disagree", {"witness": msgs[0]}))
+    return not bad
+
+
+def _table_levels(check: Check, name: str, prec: dict, assoc: dict) -> None:
+    construct = {"pratt": PRATT_EX, "prec_climber": CLIMB, "grammar_encoded": GE_PEST}[name]
+    got = order_of({k: v for k, v in prec.items() if k in ("add", "sub", "mul", "div", "pow", "neg", "fac")})
+    ok = got == WANT_ORDER
+    check.oblige("CALC-LEVELS", construct, "levels: add,sub < mul,div < pow < neg < fac" if ok else f"operator levels are {got}", ok, sample=True,
+                 finding=Finding("CALC-LEVELS", construct, "operator levels differ from add,sub < mul,div < pow < neg < fac", f"{name}: levels {got}; the three calculators would disagree", {}))
+    for op, want in WANT_ASSOC.items():
+        ok = assoc.get(op) == want
+        check.oblige("CALC-ASSOC", construct, f"{op} is {want}-associative" if ok else f"{op} is {assoc.get(op)}-associative where {want} is documented", ok,
+                     finding=Finding("CALC-ASSOC", construct, f"{op} is not {want}-associative", f"{name}: {op} groups {assoc.get(op)}; the documented table and the other calculators say {want}", {}))
+    check.count("calculator_implementations")
+
+
 def calculators(check: Check, repo: Repo) -> None:
-    impls = {"pratt": pratt_tables(check, repo), "prec_climber": climber_tables(check, repo), "grammar_encoded": grammar_tables(check, repo)}
-    for name, (prec, assoc) in impls.items():
-        construct = {"pratt": PRATT_EX, "prec_climber": CLIMB, "grammar_encoded": GE_PEST}[name]
-        got = order_of({k: v for k, v in prec.items() if k in ("add", "sub", "mul", "div", "pow", "neg", "fac")})
-        ok = got == WANT_ORDER
-        check.oblige("CALC-LEVELS", construct, "levels: add,sub < mul,div < pow < neg < fac" if ok else f"operator levels are {got}", ok, sample=True,
-                     finding=Finding("CALC-LEVELS", construct, "operator levels differ from add,sub < mul,div < pow < neg < fac", f"{name}: levels {got}; the three calculators would disagree", {}))
-        for op, want in WANT_ASSOC.items():
-            ok = assoc.get(op) == want
-            check.oblige("CALC-ASSOC", construct, f"{op} is {want}-associative" if ok else f"{op} is {assoc.get(op)}-associative where {want} is documented", ok,
-                         finding=Finding("CALC-ASSOC", construct, f"{op} is not {want}-associative", f"{name}: {op} groups {assoc.get(op)}; the documented table and the other calculators say {want}", {}))
-        check.count("calculator_implementations")
+    pratt_ok = pratt_calculator(check, repo)
+    # the reading of the Pratt example's tables as literals is a second opinion behind CALC-PRATT, which evaluates them
+    check.second_opinion(lambda c: _table_levels(c, "pratt", *pratt_tables(c, repo)), "CALC-PRATT", pratt_ok)
+    _table_levels(check, "prec_climber", *climber_tables(check, repo))
+    _table_levels(check, "grammar_encoded", *grammar_tables(check, repo))
     # the shared calculator grammar lists the same operator rules
     rules = P.read_pest(repo.read(CALC_PEST), CALC_PEST)
     ok = set(_ids(rules["infix"][1])) == {"add", "sub", "mul", "div", "pow"} and _ids(rules["prefix"][1]) == ["neg"] and _ids(rules["postfix"][1]) == ["fac"]
@@ -295,7 +317,7 @@ def json_grammars(check: Check, repo: Repo) -> None:
 
 def run(tier: str) -> Check:
     check = Check("C17", tier, EXPLANATION)
-    check.rules = ["CALC-LEVELS", "CALC-ASSOC", "CLIMB-LOOP", "CLIMB-ASSOC", "GRAMMAR-LEVELS", "JSON-LEX", "PRATT", "P1", "P2", "P3", "P4", "P5", "STREAM"]
+    check.rules = ["CALC-PRATT", "CALC-LEVELS", "CALC-ASSOC", "CLIMB-LOOP", "CLIMB-ASSOC", "GRAMMAR-LEVELS", "JSON-LEX", "PRATT", "P1", "P2", "P3", "P4", "P5", "STREAM"]
     check.assumptions = [
         "tree mirroring of json.loads, prefix rejection on concrete documents and evaluated values are run-time results and are not decided",
         "RFC 8259 number/string ABNF is frozen in the checker as reference regular expressions",
@@ -308,6 +330,7 @@ def run(tier: str) -> Check:
     from .c18 import pratt_rules
 
     pratt_rules(check, repo)
-    check.floor("calculator_implementations", 3)
+    check.floor("calculator_implementations", 2)
+    check.floor("pratt_calculator_streams", 300)
     check.floor("json_lexical_inclusions", 3)
     return check
